@@ -14,10 +14,10 @@ Definition demo_h1 : list (event csched) :=
     Wake 1000000000; Tick 1000000000; Wake 7000000000; Snapshot ].
 
 Definition demo_h2 : list (event csched) :=
-  [ JobRet; JobRet; JobRet; CtxPoll; Start 20000000000; Wake 22000000000 ].
+  [ StopRet; JobRet; JobRet; JobRet; CtxPoll; Start 20000000000; Wake 22000000000 ].
 
 Definition demo_h : list (event csched) :=
-  demo_h1 ++ Removed 7000000000 2 :: Stop :: demo_h2.
+  demo_h1 ++ Removed 7000000000 2 :: RemoveRet 2 :: Stop :: demo_h2.
 
 Example demo_wf :
   wf cnext (init 500) demo_h = true /\
